@@ -311,13 +311,13 @@ package tls
 // cookie (44): type, be16(2+n), be16(n), n cookie bytes.
 
 //@ func (*CookieExtension).Len
-//@   property C08 C02
+//@   property C08 C02 C17
 //@   requires e != nil
 //@   pure
 //@   ensures ret == 6 + len(e.Cookie)
 
 //@ func (*CookieExtension).Read
-//@   property C08 C02
+//@   property C08 C02 C17
 //@   let n = len(e.Cookie)
 //@   requires e != nil
 //@   requires arr(b) != arr(e.Cookie)
